@@ -7,7 +7,7 @@ Writes /verif/harmless/<name>/result.json.
 """
 import sys, os, json, subprocess, time, argparse
 VERIF = os.path.dirname(os.path.dirname(os.path.abspath(__file__)))
-REPO = '/repo'
+REPO = os.environ.get('SEED_REPO', '/repo')
 PYTEST = ['/venv/bin/python', '-m', 'pytest', '-q', '-p', 'no:cacheprovider', '--timeout=900', '-x']
 
 
